@@ -1,7 +1,7 @@
 #!/bin/bash
 # re-confirm every stored seeded change against the CURRENT /repo HEAD in the scratch worktree /tmp/wt1:
 # patch applies, suite passes with it, the demonstration fails with it and passes without it.
-# usage: tools/seed_reverify.sh [name-prefix]   -> one line per seed on stdout
+# usage: [SKIP_SUITE=1] tools/seed_reverify.sh [name-prefix]   -> one line per seed on stdout
 wt=/tmp/wt1; export CARGO_TARGET_DIR=/tmp/tgt CARGO_NET_OFFLINE=true
 cd $wt || exit 2
 git checkout -q -- . && git clean -fdq && git checkout -q --detach $(git -C /repo rev-parse HEAD)
@@ -9,7 +9,7 @@ for d in /verif/seeded/${1:-}*/; do
   name=$(basename $d)
   git checkout -q -- . && git clean -fdq
   if ! git apply $d/patch.diff 2>/dev/null; then echo "$name: PATCH-DOES-NOT-APPLY"; continue; fi
-  suite=$(cargo nextest run --workspace --no-fail-fast --tool-config-file pb:/w/lib/nextest.toml --profile pb --test-threads 8 --offline 2>&1 | grep -o "[0-9]* passed" | tail -1)
+  [ -n "${SKIP_SUITE:-}" ] && suite=skipped || suite=$(cargo nextest run --workspace --no-fail-fast --tool-config-file pb:/w/lib/nextest.toml --profile pb --test-threads 8 --offline 2>&1 | grep -o "[0-9]* passed" | tail -1)
   if ! git apply $d/demo.diff 2>/dev/null; then echo "$name: DEMO-DOES-NOT-APPLY suite=$suite"; continue; fi
   demo=$(python3 -c "import json;print(json.load(open('$d/meta.json'))['demonstration']['command'])")
   ( eval "timeout 900 $demo" ) > /tmp/reverify_with.log 2>&1; w=$?
